@@ -48,8 +48,9 @@ struct G<'a, 'b> {
     fns: Vec<&'static str>,
 }
 
-const VARS: &[&str] = &["a", "b", "c", "d"];
-const FNS: &[&str] = &["f", "g"];
+// `last` and `first` are also names of builtins: a user binding must keep hiding them on later entries
+const VARS: &[&str] = &["a", "b", "c", "d", "last"];
+const FNS: &[&str] = &["f", "g", "first"];
 
 impl<'a, 'b> G<'a, 'b> {
     fn expr(&mut self, depth: usize) -> E {
@@ -180,7 +181,31 @@ impl<'a, 'b> G<'a, 'b> {
             // ---- runtime error between side effects (no new names after the failing statement)
             5 | 6 if !self.vars.is_empty() => {
                 let v = self.vars[self.c.below(self.vars.len())];
-                let mut st = vec![S::Expr(assign(id(v), bin("+", id(v), E::Int(1)))), S::Expr(call("puts", vec![id(v)]))];
+                let mut st = Vec::new();
+                // sometimes the failing entry first (re)defines a function or a variable with literals of its own:
+                // what was defined before the failure must survive it intact
+                match self.c.below(4) {
+                    0 => {
+                        let f = FNS[self.c.below(FNS.len())];
+                        let k = 1000 + self.c.below(9000) as i64;
+                        if !self.fns.contains(&f) {
+                            self.fns.push(f);
+                        }
+                        st.push(S::FnDef(f.to_string(), vec!["p".into()], vec![S::Expr(bin("+", id("p"), E::Int(k)))]));
+                    }
+                    1 => {
+                        let w = self.new_or_old_var();
+                        if w != v {
+                            if !self.vars.contains(&w) {
+                                self.vars.push(w);
+                            }
+                            st.push(S::Let(w.to_string(), E::Int(20_000 + self.c.below(9000) as i64)));
+                        }
+                    }
+                    _ => {}
+                }
+                st.push(S::Expr(assign(id(v), bin("+", id(v), E::Int(1)))));
+                st.push(S::Expr(call("puts", vec![id(v)])));
                 let bad = match self.c.below(3) {
                     0 => bin("/", E::Int(1), E::Int(0)),
                     1 => bin("%", id(v), E::Int(0)),
